@@ -265,3 +265,22 @@ for _id in list(CLAIMED):
 claim("C08", "ordering / must-pass and error-refinement queries over go/cfg paths of the DKIM signer's feeding sequence and of smtpconn Data/LMTPData; writer/reader agreement rules (configuration directive → option field, key table normaliser, PEM type ↔ parser, newkey_algo ↔ generator) over the type-checked AST; parameter pass-through rules on every Data call site; edge-removal world query (verification error non-nil) in check.dkim",
       "Structural part only – NOT whether a given message verifies (canonicalisation, hashing and signature arithmetic are go-msgauth's, the serialisers go-message's and go-smtp's; deciding that needs execution over generated messages and is outside static analysis). Decided on every run, each a necessary condition of the statement: (R1) in modify.dkim RewriteBody the signer created by dkim.NewSigner receives the header parameter and then an unbounded copy of body.Open() of the body parameter, header before body, is closed with its error read before Signature() is taken, the signature is added with AddRaw to that same header on every successful path that created a signer, nothing else is added to or removed from the header after its field list or bytes went to the signer, and no failed step is followed by success or by a signature; (R2) HeaderCanonicalization / BodyCanonicalization / Hash are read from the very fields the directives header_canon / body_canon / hash store into, every value those directives admit (defaults included) is one go-msgauth has a canonicalizer for resp. one the hash table maps (sha256 → crypto.SHA256), h= is computed from the header that is signed, i= is '@' + the variable of d=, s= is the configured selector or its A-label form, and the key is looked up for the domain of d= under the same normaliser Init stores the keys under; (R3) fieldsToSign lists a configured field once per instance in the header (loop over FieldsByKey of the element), an over-signed one exactly once more, a plainly signed one never more, filters duplicates with the key expression it records, and returns the list it built; (R4) the generated private key is the one marshalled into the key file, published (its Public() half, base64.StdEncoding) and returned; rsa2048/rsa4096/ed25519 each have the generator of that kind and size and carry the k= tag DKIM defines; the PEM type written is read back with the x509 parser matching the marshaller; (R5) smtpconn Data and LMTPData write the header parameter, then an unbounded copy of the body parameter, close the data writer with its error read, and never report success after a failed step; (R6) every call of Data / LMTPData in the server passes the header parameter of the function it stands in, unmodified, and the body parameter or body.Open() of it; (R7) check.dkim verifies io.MultiReader(serialised header parameter, body.Open()) and in the world 'verification error non-nil' neither the good-signature flag nor the value pass is reachable; (R8 = C10.R3, C10.R3f) the queue stores, reloads and hands on header and body unmodified. Plus the discipline rules E1–E11 and the reference inventory E5/E5b/E6 on every function of internal/modify/dkim, internal/check/dkim and internal/smtpconn.",
       "trusts go/types, go/cfg; go-msgauth, go-message and go-smtp are judged only through their interface use (A2); the order of modifiers in a configuration is not visible", "DESIGN.md §3 C08 (as revised in §R.17), §4")
+# ---- ninth round, rules added to the other properties (DESIGN.md §R.17)
+for _id in list(CLAIMED):
+    if _id == "C08":
+        continue
+    tech, text, note, ref = CLAIMED[_id]
+    CLAIMED[_id] = (tech, text + " Discipline rule added in round 8, on every function of the property's packages: E12 (no loop ranges over a collection that the assignment before it created empty – a copy loop whose operand is the fresh destination).", note, ref + ", §R.17")
+_add5("C01", "After a failed QUIT smtpconn.C.Close returns nil: the outcome of closing a connection the peer has reset (over TLS the close_notify alert cannot be sent) is not reported either (R6, second obligation).")
+_add5("C02", "The staging file of a record rewrite is named after the message (the record's own path plus a suffix) and is the source of the rename (C12.R19 as R14).")
+_add5("C04", "Every part of a reject block's reply is its default or taken from the directive's arguments, nothing rewrites it afterwards (R12); a loop that copies rewrite results into the list a modifier returns copies every element (R13).")
+_add5("C07", "No IDNA profile on the way from the From field to the query is transitional (R15); the emptiness test that sends the policy lookup to the organizational domain is made on the records that begin with v=DMARC1, not on the raw TXT answer (R16).")
+_add5("C09", "A status-reporting loop reports for every element of the recipient list: the report is never skipped under a condition that looks at the address (K14).")
+_add5("C11", "BucketSet removes a bucket only under a test of a per-bucket holder count that taking increments and Release decrements (R10).")
+_add5("C12", "No function of the queue waits for the wait group of the attempts while it holds one of the queue's mutexes (R18); the staging file of a record rewrite belongs to its message (R19).")
+_add5("C13", "No package-level variable of the DANE code is initialised from the clock: the time certificates are judged at is taken at the connection (R11).")
+_add5("C14", "While table.sql_query's SetKey updates only after a refused insert, the CREATE TABLE statement table.sql_table generates makes the key column PRIMARY KEY / UNIQUE (R8).")
+_add5("C15", "No two names of authz.NormalizeFuncs denote the same function, and exactly the names that say casefold (and auto) map to a function that folds case (R17).")
+_add5("C16", "The coherence of a literal is judged per switch world (the constant case labels a path enters through), so that a recorded finding names one input form (R1); every call of exterrors.SMTPCode passes a constant 4xx and a constant 5xx (R12); the failure report's Status is the stored status of the error it quotes (C18.R2 as R13).")
+_add5("C17", "After the last lower-casing step of each key function an NFC step follows – lower-casing is not closed under NFC (R4); no transitional IDNA profile (R10); dns.LowerASCII maps every string pointwise, no path returns the parameter (R11); inside a loop over the characters of a string the byte at the loop index is never written in place of the character (R12).")
+_add5("C19", "The queue ends a downstream delivery exactly once (C01.R1 as R14); the numeric bounds of pool.Config are never assigned inside the pool (R15); pool.Return stores or closes the connection on every path, also when the pool was shut down meanwhile (R16).")
